@@ -383,6 +383,7 @@ func templates() []string {
 		}
 	}
 	out = append(out, lineTemplates()...)
+	out = append(out, terminalTemplates()...)
 	return out
 }
 
@@ -625,4 +626,47 @@ func iabs(v int) int {
 		return -v
 	}
 	return v
+}
+
+// (e) positions without a legal move, for both colours and on every edge: stalemates and checkmates with the lone king on each
+// corner and on edge squares (the evaluation's stalemate and mate tests, the king lookup, the mobility count of the other side)
+func terminalTemplates() []string {
+	var out []string
+	type tpl struct{ k, q, K int } // lone king, queen, other king (0..63 as file + 8*rank)
+	base := []tpl{
+		{63, 53, 46}, // Kh8, Qf7, Kg6: stalemate
+		{63, 54, 46}, // Kh8, Qg7, Kg6: mate
+		{63, 60, 46}, // Kh8, Qe8 (check along the rank), Kg6: mate? king g7/h7 attacked by Kg6 -> mate
+		{56, 50, 41}, // Ka8, Qc7, Kb6: stalemate
+		{56, 49, 41}, // Ka8, Qb7, Kb6: mate
+		{0, 10, 17},  // Ka1, Qc2, Kb3: stalemate
+		{0, 9, 17},   // Ka1, Qb2, Kb3: mate
+		{7, 13, 22},  // Kh1, Qf2, Kg3: stalemate
+		{7, 14, 22},  // Kh1, Qg2, Kg3: mate
+		{60, 52, 44}, // Ke8, Qe7, Ke6: mate
+		{4, 12, 20},  // Ke1, Qe2, Ke3: mate
+	}
+	for _, b := range base {
+		for _, loneWhite := range []bool{false, true} {
+			for _, toMoveLone := range []bool{true, false} {
+				cells := map[int]byte{}
+				k, q, K := byte('k'), byte('Q'), byte('K')
+				if loneWhite {
+					k, q, K = 'K', 'q', 'k'
+				}
+				cells[sq(b.k&7, b.k>>3)] = k
+				cells[sq(b.q&7, b.q>>3)] = q
+				cells[sq(b.K&7, b.K>>3)] = K
+				side := "b"
+				if loneWhite == toMoveLone {
+					side = "w"
+				}
+				out = append(out, fenFromMap(cells, side, "-", "-", 31))
+				// with a blocked pawn pair so that "no legal move" is not "bare king"
+				cells[sq(2, 3)], cells[sq(2, 4)] = 'P', 'p'
+				out = append(out, fenFromMap(cells, side, "-", "-", 31))
+			}
+		}
+	}
+	return out
 }
